@@ -187,8 +187,18 @@ class G:
         """Rarer statement forms."""
         rng, e = self.rng, self.env
         k = rng.choice(["format_tight", "block_decl", "select_type", "labelled_call_noparen", "keyword_args", "arith_if", "io_stmts",
-                        "named_do", "implied_do_io", "component_assign", "stop", "concat", "two_calls_in_args", "blank_in_chain"])
+                        "named_do", "implied_do_io", "component_assign", "stop", "concat", "two_calls_in_args", "blank_in_chain",
+                        "semicolon_and_other_quote", "semicolon_inside_literal", "associate_selector_starts_with_own_name"])
         self.forms.add("extra_" + k)
+        if k == "semicolon_and_other_quote":
+            s_ = rng.choice(e["subs_noargs"])
+            q = rng.choice(['"it\'s done"', "'say \"hi'", '"a\'b\'c\'"'])
+            return [f"print *, {q}; call {s_}"], {s_.lower()}
+        if k == "semicolon_inside_literal":
+            f = rng.choice(e["funcs"])
+            return [f"msg = 'say \"'; print *, \"then; call {f}(1)\""], set()
+        if k == "associate_selector_starts_with_own_name":
+            return [f"associate (obj => obj%{e['tfn']}(k))", "x = x + 1", "end associate"], {e["tfn"].lower()}
         if k == "format_tight":
             lab = e["nextlabel"]()
             return [f"{lab} format(3(i4, 1x), 2(a))"], set()
@@ -450,9 +460,18 @@ def observe_case(item):
     project, cap = observe.parse_and_correlate([item["root"]], cap=cap)
     out = {}
 
+    unresolved = {}
+    defined = set()
+
     def visit(u):
         if hasattr(u, "calls"):
             out[u.name.lower()] = [observe._call_name(c) for c in u.calls]
+            unresolved[u.name.lower()] = [observe._call_name(c).split("%")[-1] for c in u.calls if isinstance(c, (str, list, tuple))]
+        if type(u).__name__ in ("FortranSubroutine", "FortranFunction"):
+            defined.add(u.name.lower())
+        for t in getattr(u, "types", []):
+            for b in getattr(t, "boundprocs", []):
+                defined.add(b.name.lower())
         for attr in ("functions", "subroutines", "modprocedures", "modfunctions", "modsubroutines"):
             for p in getattr(u, attr, []):
                 visit(p)
@@ -462,7 +481,7 @@ def observe_case(item):
             for u in getattr(f, attr):
                 visit(u)
     diags = [w for w in cap.warnings if "Error parsing" in w] + [l for l in cap.stdout.splitlines() if l.startswith("ERROR in file")]
-    return {"calls": out, "diags": diags[:5], "recorded": [r for r in RECORDED][:4000], "n_add_calls": len(RECORDED)}
+    return {"calls": out, "unresolved": unresolved, "defined": sorted(defined), "diags": diags[:5], "recorded": [r for r in RECORDED][:4000], "n_add_calls": len(RECORDED)}
 
 
 def stmt_form(line: str) -> str:
@@ -528,6 +547,11 @@ def case(seed):
             viol.append({"kf": {"kind": "spurious_call", "statement_form": form, "what": "digit" if extra.isdigit() else "name",
                                 "name_declared_in_block_construct": extra in ("tmpb", "scal")},
                          "w": {"unit": uname, "recorded": extra, "statement": src[:2], "expected": sorted(exp), "seed": seed, "files": texts}})
+        # a recorded call of a procedure (or binding) that the project defines must have been resolved to it
+        for nm_ in sorted(set(r["unresolved"].get(uname, [])) & exp & set(r["defined"])):
+            src = [ln for ch, ln in rec_by_unit.get(uname, []) if ch.split("%")[-1] == nm_]
+            viol.append({"kf": {"kind": "call_recorded_but_not_resolved", "statement_form": stmt_form(src[0]) if src else "unknown"},
+                         "w": {"unit": uname, "name": nm_, "statement": src[:2], "seed": seed, "files": texts}})
         for miss in sorted(exp - gs):
             src = []
             for t in texts.values():
